@@ -34,6 +34,7 @@ FIXED = [
  ("C14", "close/err", "fix: an index loaded back from disk switches", "a delete into a closed blob (or a restore) dropped while the index is loaded back leaves the index in memory with the old, off-loaded filter: every later dump of that blob fails ('Filter buffer offloaded, can't serialize') - silently in the background, and as an error of close() since close performs pending dumps"),
  ("C14", "cancel/close_active/after-drop/read/mismatch", "fix: closing the active blob takes the blob list lock", "try_close_active_blob dropped at the lock of the closed-blob list, which it awaited AFTER taking the active blob out of its slot (the lock is free, but a runtime resource may answer Pending when the task's cooperative budget is used up): the blob object is dropped, its acknowledged records answer NotFound until restart"),
  ("C03", "panic", "fix: a tree offset beyond the end of an index file", "BPTreeFileIndex::read_root computes file size - tree offset before any validation: an index file with an intact header whose tree meta was never written (garbage offsets) makes start-up panic with an arithmetic overflow in builds with overflow checks (the default dev profile); without them the subtraction wraps and the read happens to fail"),
+ ("C09", "panic", "fix: searching an index node that holds no key", "with a fan-out of 2 (key lengths above 2032 bytes) the tree builder emits inner nodes with one child and no key whenever a layer has an odd number of nodes; Node::binary_search_serialized computes keys - 1 in usize: every lookup that reaches such a node panics in builds with overflow checks (without them the value wraps to -1 after the cast and the answer is right)"),
  ("C12", "sync/explicit-fsyncdata-noop", "fix: Storage::fsyncdata always", "explicit fsyncdata() issues no sync below the dirty-byte limit"),
 ]
 OPEN = [
